@@ -129,7 +129,7 @@ func (h *H) checkLU(id string, seedIdx int, m, n int, cls string, deep bool) {
 			}
 		} else {
 			scale := ref.MulAbs(l, u).MaxAbs()
-			cs.band(c.routine, "", "lu-reconstruction", resid, float64(k)*eps*scale, func() string {
+			cs.band(c.routine, "", "lu-reconstruction", resid, float64(k)*(eps*scale+subFloor), func() string {
 				return fmt.Sprintf("%v m=%d n=%d class=%s", c.cf, m, n, cls)
 			})
 		}
@@ -151,8 +151,8 @@ func (h *H) checkLU(id string, seedIdx int, m, n int, cls string, deep bool) {
 			cs.fail(c.routine, "", "ok-inconsistent-with-U", "%v m=%d n=%d class=%s: ok=%v but zero diagonal in U: %v", c.cf, m, n, cls, r.ok, zero)
 		}
 	}
-	if k == 0 || len(results) < 2 {
-		return
+	if k == 0 || len(results) < 2 || isExtreme(cls) {
+		return // extreme magnitudes: factorization identities only (inverses overflow)
 	}
 
 	// Differential: blocked vs unblocked, lda classes.
